@@ -1009,6 +1009,49 @@ HISTORY_CORPUS = [
 ]
 
 
+def run_gotsig(ctx):
+    """The survey's last step on the real ServermapUpdater._got_signature_one_share: a share whose version has a valid
+    signature is recorded in the servermap -- also when the same server handed over a corrupt share earlier in this
+    update -- unless that very share was marked bad before or the update is over (a read may only choose among the
+    versions it located: what it is shown must be what validated)."""
+    from allmydata.mutable.servermap import ServermapUpdater, ServerMap
+    servers = [mc.FakeServer(i) for i in range(3)]
+    vs = lambda seq: (seq, HASHES[0], b"\x01" * 16, 6, 6, 2, 3, b"p%d" % seq, tuple((key, 100) for key in mc.OFFSET_KEYS))
+    n = 0
+    for running in (True, False):
+        for in_bad_servers in (False, True):
+            for marked_bad in (False, True):
+                for already_known in (False, True):
+                    u = ServermapUpdater.__new__(ServermapUpdater)
+                    u._log_number = None
+                    u._running = running
+                    u._servermap = ServerMap()
+                    u._valid_versions = {u._make_verinfo_hashable(vs(5)[:8] + (dict(vs(5)[8]),))}   # signature seen valid
+                    u._bad_servers = {servers[1]} if in_bad_servers else set()
+                    u._servers_with_shares = set()
+                    if already_known:
+                        u._servermap.add_new_share(servers[1], 4, vs(3), 0)
+                    if marked_bad:
+                        u._servermap.mark_bad_share(servers[1], 4, b"cs")
+                    verinfo_in = vs(5)[:8] + (dict(vs(5)[8]),)
+                    try:
+                        u._got_signature_one_share((None, (True, verinfo_in), (True, b"sig"), None, None), 4, servers[1], None)
+                    except Exception as e:
+                        ctx.count("gotsig-exception:" + type(e).__name__)
+                        continue
+                    got = u._servermap.version_on_server(servers[1], 4)
+                    want = vs(5) if (running and not marked_bad) else (vs(3) if (already_known and not marked_bad) else None)
+                    case = {"kind": "gotsig", "running": running, "server_gave_corrupt_share_before": in_bad_servers,
+                            "share_marked_bad": marked_bad, "already_known": already_known}
+                    n += 1
+                    ctx.case(("gotsig", running, in_bad_servers, marked_bad, already_known))
+                    if (got and got[:2]) != (want and want[:2]):
+                        ctx.violation("a validly signed share (seq 5) reported during the survey: the servermap now shows seq %s "
+                                      "for that slot, expected seq %s" % (got and got[0], want and want[0]), case,
+                                      "valid-share-not-recorded" if want and not got else "survey-recorded-wrong-share")
+    ctx.count("gotsig-cases", n)
+
+
 def replay_case(replay):
     """the case of a replay file: a violation's case, or the case of the first recorded disagreement"""
     if replay.get("case"):
@@ -1041,6 +1084,7 @@ def run(ctx):
         vers = gen_versions(ctx.rng)
         cases.append((vers, gen_map_ops(ctx.rng, vers)))
     run_smaps(ctx, cases)
+    run_gotsig(ctx)
     run_upds(ctx, _upd_corpus() + [gen_upd(ctx.rng) for _ in range(0 if corpus_only else ctx.budget(600, 12000))])
     acc = {k: [] for k in ("upd_lines", "upd_impl", "upd_cases", "sm_lines", "sm_impl", "sm_cases", "log_lines",
                                     "log_impl", "log_cases")}
